@@ -201,7 +201,9 @@ class SegmentTensor(PolytopeTensor):
 
     def __apply__(self, transformation: TransformationTensor) -> SegmentTensor:
         result = super().__apply__(transformation)
-        result._line = transformation.apply(result._line)
+        # the supporting line is joined from the transformed vertices (as in the constructor): transforming the old line would
+        # let its coordinates shrink or grow with every application until they meet the absolute tolerances
+        result._line = join(*result.vertices)
         return result
 
     def __getitem__(self, index: TensorIndex) -> Tensor | np.generic:
